@@ -66,7 +66,10 @@ ChainFrom(R, O, i, keepUnmapped) ==
 ChainAlgo(R, O, keepUnmapped) == ChainFrom(R, O, 1, keepUnmapped)
 
 (* C10: at the start of every rewrite token the chained map resolves like the composition *)
-ExactAt(C, R, O, i) == Resolve(C, R[i].gl, R[i].gc) = Composed(R, O, R[i].gl, R[i].gc)
+(* ... and one column further (a position strictly inside the token's run, unless the next token starts there): *)
+(* a chained token must not stretch its image over its run the way a range token does                           *)
+ExactAt(C, R, O, i) == /\ Resolve(C, R[i].gl, R[i].gc) = Composed(R, O, R[i].gl, R[i].gc)
+                       /\ Resolve(C, R[i].gl, R[i].gc + 1) = Composed(R, O, R[i].gl, R[i].gc + 1)
 ExactComposition(C, R, O) == \A i \in 1..Len(R) : ExactAt(C, R, O, i)
 FirstInexact(C, R, O) ==
   IF ExactComposition(C, R, O) THEN 0
